@@ -133,3 +133,12 @@ CHECKS["C10"] = dict(
     level_text="Differential random testing with the victim's response pinned in each live state (paused, running, queued/completing). One defect (no sender check) found and fixed.",
     level_note="Trusts the run without the intruder as reference.",
     technique="rapid differential testing with an injected second peer", design_ref="DESIGN.md §4 C10")
+
+CHECKS["C04"] = dict(
+    pkg="props/c04", level="fault_enumeration", gomaxprocs=1, crash_class=True,
+    rule="one real requestor (store = generated subset) against a scripted responder that, once it has received the New request, plays the honest transcript (1-3 entries per message) up to a generated cut (0-8 messages) followed by a generated ending (silence or any of 8 terminal statuses); at generated steps the caller cancels through its context or the Cancel API, pauses / unpauses, or the peer disconnects; response hook errors on the n-th response, block hook errors or pauses on the n-th block; the requestor's first 0-3 sends fail with MessageSendRetries 1-2, or every connect fails. Every case is journaled before it runs (a double close / send on a closed channel kills the worker). Oracle at final quiescence (+5 s virtual): terminal status delivered to a live request (and no re-request afterwards) or caller cancelled a live request => both channels closed and every Cancel() call returned; caller cancellation of a live request => RequestClientCancelledErr reported and a Cancel for the id handed to the network; failure status S delivered to a live request with no earlier local cause => an error equal to S.AsError() reported. Paused requests are unpaused at the end unless the caller cancelled. Non-trivial: a cancel or terminal status lands while the request is listed queued / running / paused.",
+    assumptions=_SIM_ASSUME + ["a scripted responder answers only after receiving the New request", "duplicated terminal errors are not failed (the statement does not say exactly one)"],
+    quick=dict(shards=2, timeout=400), thorough=dict(shards=16, timeout=3000),
+    level_text="Generated fault/cancel scripts over generated transcripts with a quiescence-based termination oracle; hangs are definite (nothing deliverable, virtual time advanced). One defect (cancel then pause) found and fixed.",
+    level_note="Intra-step goroutine interleavings are not controlled.",
+    technique="rapid fault-script testing in a synctest bubble with a termination oracle at quiescence", design_ref="DESIGN.md §4 C04")
